@@ -1761,11 +1761,9 @@ func ReadTerm(vm *VM, streamOrAlias, out, options Term, k Cont, env *Env) *Promi
 	}
 
 	p := NewParser(vm, s)
-	defer func() {
-		_ = s.UnreadRune()
-	}()
-
 	t, err := p.Term()
+	// Return the look-ahead rune to the stream before the continuation runs.
+	_ = s.UnreadRune()
 	switch err {
 	case nil:
 		break
@@ -1920,9 +1918,8 @@ func PeekByte(vm *VM, streamOrAlias, inByte Term, k Cont, env *Env) *Promise {
 	}
 
 	b, err := s.ReadByte()
-	defer func() {
-		_ = s.UnreadByte()
-	}()
+	// Unread before the continuation runs: the rest of the conjunction must see the byte again.
+	_ = s.UnreadByte()
 	switch err {
 	case nil:
 		return Unify(vm, inByte, Integer(b), k, env)
@@ -1958,9 +1955,8 @@ func PeekChar(vm *VM, streamOrAlias, char Term, k Cont, env *Env) *Promise {
 	}
 
 	r, _, err := s.ReadRune()
-	defer func() {
-		_ = s.UnreadRune()
-	}()
+	// Unread before the continuation runs: the rest of the conjunction must see the character again.
+	_ = s.UnreadRune()
 	switch err {
 	case nil:
 		if r == unicode.ReplacementChar {
